@@ -441,3 +441,31 @@ pub fn utf8_run_triples(mut f: impl FnMut(&[u8], &[u8], &[u8]) -> bool) -> bool 
     }
     true
 }
+
+/// code units that matter right AFTER a surrogate pair (emoji variation selectors and joiners,
+/// keycap, spaces) in addition to the boundary units
+pub const AFTER_PAIR16: [u16; 14] = [0x0020, 0x0061, 0x00E9, 0x05D0, 0x200C, 0x200D, 0x20E3, 0x3042, 0xFE0E, 0xFE0F, 0xD83D, 0xDE00, 0xDC00, 0xFFFD];
+
+/// [filler.., pair, u1, u2, u3, filler..] for every (u1, u2, u3) over AFTER_PAIR16: scalar loops
+/// that stay "in emoji mode" after a pair decide what the following units are from context
+pub fn after_pair_triples16(mut f: impl FnMut(&[u16]) -> bool) -> bool {
+    let mut v: Vec<u16> = Vec::with_capacity(32);
+    for &u1 in AFTER_PAIR16.iter() {
+        for &u2 in AFTER_PAIR16.iter() {
+            for &u3 in AFTER_PAIR16.iter() {
+                for pre in [0usize, 3, 14] {
+                    v.clear();
+                    v.extend((0..pre).map(|i| 0x61 + i as u16));
+                    v.extend_from_slice(&[0xD83D, 0xDD75, u1, u2, u3]);
+                    if pre != 3 {
+                        v.extend_from_slice(&[0x7A, 0x7A]);
+                    }
+                    if !f(&v) {
+                        return false;
+                    }
+                }
+            }
+        }
+    }
+    true
+}
